@@ -41,6 +41,9 @@ pub struct Ctx {
     pub seed: u64,
     pub start: Instant,
     pub replay: Option<PathBuf>,
+    /// `key` of the replayed artefact: checks without a dedicated single-case replay re-run their
+    /// exploration and report only failures with this key (generic replay)
+    pub replay_key: Option<String>,
     state: Mutex<CtxState>,
 }
 
@@ -101,7 +104,8 @@ impl Ctx {
                 }
             });
         });
-        Ctx { id: id.to_string(), tier, seed, start: Instant::now(), replay, state: Mutex::new(Default::default()) }
+        let replay_key = replay.as_ref().and_then(|p| std::fs::read_to_string(p).ok()).and_then(|t| serde_json::from_str::<Value>(&t).ok()).and_then(|v| v["key"].as_str().map(|s| s.to_string()));
+        Ctx { id: id.to_string(), tier, seed, start: Instant::now(), replay, replay_key, state: Mutex::new(Default::default()) }
     }
 
     pub fn elapsed(&self) -> f64 {
@@ -117,6 +121,11 @@ impl Ctx {
     /// Report a failing case. `key` identifies the failure class (used to match known findings
     /// and to avoid flooding the output); `replay` is the self-contained replay artefact.
     pub fn fail(&self, key: &str, what: &str, replay: Value) {
+        if let Some(rk) = &self.replay_key {
+            if rk != key {
+                return; // generic replay: only the replayed failure class is of interest
+            }
+        }
         let findings = findings_for(&self.id);
         let mut st = self.state.lock().unwrap();
         if let Some(f) = findings.iter().find(|f| f.status == "known" && f.key == key) {
@@ -186,6 +195,10 @@ impl Ctx {
             }
         }
         let v = st.violations;
+        if let Some(rk) = &self.replay_key {
+            let known = st.known_hits.contains_key(rk);
+            println!("REPLAY {}: key={} {}", self.id, rk, if v > 0 { "reproduced (violation)" } else if known { "reproduced (listed as a known finding)" } else { "not reproduced" });
+        }
         println!(
             "{} {} tier={} violations={} known_finding_keys={} wall={:.1}s",
             if v == 0 { "PASS" } else { "FAIL" },
